@@ -594,16 +594,30 @@ def _run(ctx, cfg, n_cases, pool, res):
                     res["violations"].append({"rule": v["rule"], "msg": v["msg"], "replay_obj": _replay_obj(prop, r, v, {"variants": True})})
     # C08: the run without the rejected calls must be the same run -----------------------------------
     if prop == "C08":
-        sub = [r for r in valid if any(o["op"] == "junk" for o in r["case"]["ops"])][: (80 if tier == "quick" else 800)]
+        def redundant(r):
+            """indices of the calls that must not matter: rejected junk / duplicate events, every start() after the first"""
+            out = set()
+            started = False
+            for i, c in enumerate(r["calls"]):
+                if c["op"]["op"] == "junk" and c["ret"] is False:
+                    out.add(i)
+                elif c["op"]["op"] == "start":
+                    if started:
+                        out.add(i)
+                    started = True
+            return out
+
+        sub = [r for r in valid if redundant(r)][: (120 if tier == "quick" else 1200)]
         stripped = []
         for r in sub:
             c2 = copy.deepcopy(strip_case(r["case"]))
-            rejected = {i for i, c in enumerate(r["calls"]) if c["op"]["op"] == "junk" and c["ret"] is False}
+            rejected = redundant(r)
+            r["_redundant"] = rejected
             c2["ops"] = [o for i, o in enumerate(r["case"]["ops"][: len(r["calls"])]) if i not in rejected]
             stripped.append(c2)
         sres = pool.map(job_run, stripped, chunksize=2)
         for r, r2 in zip(sub, sres):
-            a = [c for c in sc.rename_ids(r["calls"]) if not (c["op"]["op"] == "junk" and c["ret"] is False)]
+            a = [c for i, c in enumerate(sc.rename_ids(r["calls"])) if i not in r["_redundant"]]
             b = sc.rename_ids(r2["calls"])
             pa, pb = proj_full(a), proj_full(b)
             if pa != pb and "as_if_never_sent" not in seen_rules:
